@@ -182,6 +182,57 @@ func init() {
 				return err
 			}
 			r.Analysed = len(H)
+			viaFilter := func(v ssa.Value) bool {
+				switch v.(type) {
+				case *ssa.Phi, *ssa.Extract, *ssa.UnOp, *ssa.ChangeType:
+					return true
+				}
+				return false
+			}
+			isFromCall := func(x ssa.Value) bool {
+				for y := range backward(x, viaFilter) {
+					if c, ok := y.(*ssa.Call); ok {
+						if _, isBuiltin := c.Call.Value.(*ssa.Builtin); !isBuiltin {
+							return true
+						}
+					}
+				}
+				return false
+			}
+			// for the helper form only a collection produced by a decoder of the repository counts
+			// (pkg/objects, pkg/encoding/...): sorted statistics and the like are not input
+			isFromDecoder := func(x ssa.Value) bool {
+				for y := range backward(x, viaFilter) {
+					if c, ok := y.(*ssa.Call); ok {
+						if sc := c.Call.StaticCallee(); sc != nil {
+							if pk := fnPkgPath(sc); pk == modPath+"/pkg/objects" || hasPrefix(pk, modPath+"/pkg/encoding") {
+								return true
+							}
+						}
+					}
+				}
+				return false
+			}
+			// permitsFor: edges of fn on which len(x) > k is known (explicit tests, validating helpers)
+			permitsFor := func(fn *ssa.Function, x ssa.Value, k int64) []edge {
+				permits := lenGuardEdges(fn, x, k)
+				eachCall(fn, func(hc ssa.CallInstruction) {
+					call, ok := hc.(*ssa.Call)
+					if !ok {
+						return
+					}
+					h := call.Call.StaticCallee()
+					if h == nil || len(h.Blocks) == 0 || fnPkgPath(h) != fnPkgPath(fn) || errorResultIndex(h.Signature) < 0 {
+						return
+					}
+					for ai, a := range call.Call.Args {
+						if ai < len(h.Params) && sameObject(a, x) && longerThanOnSuccess(h, ai, k) {
+							permits = append(permits, successEdges(fn, call)...)
+						}
+					}
+				})
+				return permits
+			}
 			for _, fn := range sortedFuncs(H) {
 				n := 0
 				for _, b := range fn.Blocks {
@@ -197,50 +248,58 @@ func init() {
 						if _, isSlice := ia.X.Type().Underlying().(*types.Slice); !isSlice {
 							continue
 						}
-						// slice must come from a call result (possibly through φ / local cell)
-						fromCall := false
-						for x := range backward(ia.X, func(v ssa.Value) bool {
-							switch v.(type) {
-							case *ssa.Phi, *ssa.Extract, *ssa.UnOp, *ssa.ChangeType:
-								return true
+						what := "constant index into a decoded collection is guarded by its length"
+						// slice must come from a call result (possibly through φ / local cell) …
+						if isFromCall(ia.X) {
+							key := fmt.Sprintf("%s|%s[%d]#%d", funcName(fn), shortType(ia.X.Type()), k, n)
+							n++
+							// range loops over the slice bound the index by construction: a constant index
+							// inside `for range x` is still a constant index, so only explicit tests count
+							if path, reach := reachAfter(fn, nil, ia, mkCut(permitsFor(fn, ia.X, k)), nil); reach {
+								r.bad(key, p.Rel(ia.Pos()), what, fmtPath(fmt.Sprintf("element %d accessed without a test that the collection has more than %d elements", k, k), path))
+							} else {
+								r.ok(key, p.Rel(ia.Pos()), what)
 							}
-							return false
-						}) {
-							if c, ok := x.(*ssa.Call); ok {
-								if _, isBuiltin := c.Call.Value.(*ssa.Builtin); !isBuiltin {
-									fromCall = true
-								}
-							}
-						}
-						if !fromCall {
 							continue
 						}
-						key := fmt.Sprintf("%s|%s[%d]#%d", funcName(fn), shortType(ia.X.Type()), k, n)
-						n++
-						what := "constant index into a decoded collection is guarded by its length"
-						permits := lenGuardEdges(fn, ia.X, k)
-						// a validating helper of the package that rejects a collection with ≤ k elements
-						eachCall(fn, func(hc ssa.CallInstruction) {
-							call, ok := hc.(*ssa.Call)
-							if !ok {
-								return
-							}
-							h := call.Call.StaticCallee()
-							if h == nil || len(h.Blocks) == 0 || fnPkgPath(h) != fnPkgPath(fn) || errorResultIndex(h.Signature) < 0 {
-								return
-							}
-							for ai, a := range call.Call.Args {
-								if ai < len(h.Params) && sameObject(a, ia.X) && longerThanOnSuccess(h, ai, k) {
-									permits = append(permits, successEdges(fn, call)...)
+						// … or be a parameter of a helper that callers of the package hand a decoded
+						// collection (round 7, refactoring N1-r8): the test may sit in the helper or,
+						// before the call, in the caller
+						pi := -1
+						for y := range backward(ia.X, viaFilter) {
+							if prm, ok := y.(*ssa.Parameter); ok {
+								for i, q := range fn.Params {
+									if q == prm {
+										pi = i
+									}
 								}
 							}
-						})
-						// range loops over the slice bound the index by construction: a constant index
-						// inside `for range x` is still a constant index, so only explicit tests count
-						if path, reach := reachAfter(fn, nil, ia, mkCut(permits), nil); reach {
-							r.bad(key, p.Rel(ia.Pos()), what, fmtPath(fmt.Sprintf("element %d accessed without a test that the collection has more than %d elements", k, k), path))
-						} else {
-							r.ok(key, p.Rel(ia.Pos()), what)
+						}
+						if pi < 0 {
+							continue
+						}
+						if _, reach := reachAfter(fn, nil, ia, mkCut(permitsFor(fn, ia.X, k)), nil); !reach {
+							continue // guarded inside the helper, whoever calls it
+						}
+						for _, g := range sortedFuncs(H) {
+							if fnPkgPath(g) != fnPkgPath(fn) {
+								continue
+							}
+							eachCall(g, func(c ssa.CallInstruction) {
+								if c.Common().StaticCallee() != fn || pi >= len(c.Common().Args) {
+									return
+								}
+								arg := c.Common().Args[pi]
+								if !isFromDecoder(arg) {
+									return
+								}
+								key := fmt.Sprintf("%s|%s[%d] in %s", callKey(g, c), shortType(ia.X.Type()), k, funcName(fn))
+								if path, reach := reachAfter(g, nil, c, mkCut(permitsFor(g, arg, k)), nil); reach {
+									r.bad(key, p.Rel(c.Pos()), what, fmtPath(fmt.Sprintf("%s accesses element %d of the collection it is handed here, and neither it nor this caller tests that the collection has more than %d elements", funcName(fn), k, k), path))
+								} else {
+									r.ok(key, p.Rel(c.Pos()), what)
+								}
+							})
 						}
 					}
 				}
